@@ -55,7 +55,8 @@ def check_tokens(r, w, root, fi, ps):
             bad_events.setdefault(id(ev), (ev, msg))
         for t in rep.toks:
             e = t.ev
-            key = site(e.fi, e.node, f'token-list:{e.name}' if t.is_list else f'token:{e.recv}.{e.name}')
+            key = site(e.fi, e.node, f'token-list:{e.name}' if t.is_list else f'token:{e.name}',
+                       same=lambda n, nm=e.name: isinstance(n, ast.Call) and isinstance(n.func, ast.Attribute) and n.func.attr == nm)
             rec = tok_sites.setdefault(key, {'ok': True, 'e': e, 'pa': pa, 'msg': ''})
             if id(e) in bad_events and rec['ok']:
                 rec.update(ok=False, pa=pa, msg=bad_events[id(e)][1])
